@@ -18,8 +18,9 @@ Model of the multi-repository part of `/repo/ak/ghist.py` (C07), on top of `Mode
 
 Repository ids are natural numbers (the harness numbers the repository names in `sorted()` order, the only thing the
 code does with the names is sorting and comparing them).  Dictionaries keyed by component name whose iteration order
-comes from a Python `set` (`relevant_cmpnts`) are kept sorted by id.  Commit times lie inside the cut-off windows
-(quantifier of C07): every component with a non-empty `bn_map` is relevant for every commit.
+comes from a Python `set` (`relevant_cmpnts`) are kept sorted by id.  The relevant components narrow down the DFS with
+the commit times (`stillRelevant`); inside the cut-off window (`CompWindow`, the quantifier of C07) every component
+with a non-empty `bn_map` stays relevant for every commit.
 -/
 namespace Ghist
 open Ak
